@@ -151,6 +151,7 @@ func (g *FuncGen) bv(op string, a, b string) string { return "(" + op + " " + a 
 
 func (g *FuncGen) instr(in ssa.Instruction) {
 	c := g.c
+	g.curInstr = in
 	switch x := in.(type) {
 	case *ssa.DebugRef:
 		return
